@@ -10,7 +10,7 @@ import numpy as np
 import lib
 import molgen
 
-HEADER = """From Coq Require Import List ZArith.
+HEADER = """From Coq Require Import List ZArith NArith.
 From GM Require Import Base.Res Model.SystemRec Corr.CheckC11.
 Import ListNotations.
 """
@@ -164,12 +164,16 @@ def coq_nats(l):
     return "[" + ";".join(str(int(x)) for x in l) + "]"
 
 
+def coq_Ns(l):
+    return "[" + ";".join("%d%%N" % int(x) for x in l) + "]"
+
+
 def coq_oz(x):
     return "None" if x is None else "(Some (%d)%%Z)" % x
 
 
 def coq_file(built, I):
-    return "[" + ";".join("(%d,%d,%s)" % (rid, I(("r", rn)), coq_nats(I(("a", a)) for a in names))
+    return "[" + ";".join("(%d%%N,%d,%s)" % (rid, I(("r", rn)), coq_nats(I(("a", a)) for a in names))
                           for rid, rn, names in built["residues"]) + "]"
 
 
@@ -194,7 +198,7 @@ def coq_obs(obs, I):
     sl = "[" + ";".join("((%s,%s,%s),%s)" % (coq_oz(a), coq_oz(b), coq_oz(c), rlist(ok, v))
                         for (a, b, c), ok, v in obs["slices"]) + "]"
     comp = "[" + ";".join("(%d,%d)" % (I(("m", k)), v) for k, v in obs["comp"]) + "]"
-    tabl = "[" + ";".join("(%d,%d,%d,%s)" % (I(("m", d[0])), d[1], d[2], coq_nats(d[3]))
+    tabl = "[" + ";".join("(%d,%d,%d,%s)" % (I(("m", d[0])), d[1], d[2], coq_Ns(d[3]))
                           for d, _ in sorted(tab.items(), key=lambda kv: kv[1])) + "]"
     return "(mkObs %s %s %d %s %s %s)" % (tabl, it, obs["len"], comp, items, sl)
 
@@ -345,7 +349,7 @@ def run_system(job):
             ok, s = catch(lambda: System(built["gro"], *[built["tops"][k] for k in order]))
             if ok:
                 ok2, ms = catch(lambda: [mol_descr(m) for m in s])
-                o = "(OOk [%s])" % ";".join("(%d,%d,%d,%s)" % (I(("m", d[0])), d[1], d[2], coq_nats(d[3])) for d in ms) \
+                o = "(OOk [%s])" % ";".join("(%d,%d,%d,%s)" % (I(("m", d[0])), d[1], d[2], coq_Ns(d[3])) for d in ms) \
                     if ok2 else "(OErr %d)" % ms
             else:
                 o = "(OErr %d)" % s
